@@ -309,10 +309,12 @@ def _gen_name(rng):
 
 def _gen_dmig_int(rng, kind=None):
     """integer-valued DMIG input: dict with name, single, mtype, rowids, colids, m (re, im)"""
-    kind = kind or rng.choice(["sym", "sym", "square", "rect", "form9", "f9-unequal", "sparse-sym"])
+    kind = kind or rng.choice(["sym", "sym", "square", "rect", "form9", "f9-unequal", "sparse-sym", "hermitian"])
     mtype = rng.randint(1, 4)
+    if kind == "hermitian":
+        mtype = rng.choice([3, 4])
     cplx = mtype >= 3
-    nr = rng.randint(1, 7)
+    nr = rng.randint(2, 7) if kind == "hermitian" else rng.randint(1, 7)
     sortrows = rng.random() < 0.85
 
     def val(density=0.7):
@@ -334,6 +336,16 @@ def _gen_dmig_int(rng, kind=None):
         for i in range(nr):
             for j in range(i + 1):
                 m[i][j] = m[j][i] = val(dens)
+    elif kind == "hermitian":
+        # complex, equal to its CONJUGATE transpose but not to its transpose: not symmetric, so form 1 (full storage)
+        nc = nr
+        cols = list(rows)
+        m = [[(0, 0)] * nc for _ in range(nr)]
+        for i in range(nr):
+            m[i][i] = (rng.randint(-9999, 9999), 0)
+            for j in range(i):
+                re, im = rng.randint(-9999, 9999), rng.choice([-1, 1]) * rng.randint(1, 9999)
+                m[i][j], m[j][i] = (re, im), (re, -im)
     elif kind == "square":
         nc = nr
         cols = list(rows) if rng.random() < 0.6 else _gen_labels(rng, nc, sort=sortrows)
@@ -1080,9 +1092,13 @@ def _o_dmig(case, known):
     if form == 6 and not sq_same:
         fam = "wtdmig-form6-from-unequal-index-sets"
     elif form == 6 and not exact_sym:
-        # symmetric within np.allclose = symmetric by the writer's own definition (see ASSUMPTIONS):
-        # outside the property's domain, skipped and counted
-        return [("skip", "square frame symmetric within np.allclose but not exactly")]
+        if np.allclose(a.T, a):
+            # symmetric within np.allclose = symmetric by the writer's own definition (see ASSUMPTIONS):
+            # outside the property's domain, skipped and counted
+            return [("skip", "square frame symmetric within np.allclose but not exactly")]
+        # half storage chosen for a matrix that is not symmetric even by the writer's own definition
+        # (e.g. Hermitian): the mirrored half cannot reproduce it; compared below like any other matrix
+        fam = "wtdmig-form6-for-non-symmetric-matrix"
     bad = None
     if grow != want_rows or gcol != want_cols:
         bad = ("index sets differ", {"rows": grow, "cols": gcol}, {"rows": want_rows, "cols": want_cols})
@@ -1215,9 +1231,11 @@ def _o_grids(case):
     n = len(ids)
     if isinstance(g, str) or g is None or g.shape != (n, 8):
         return ("grid-roundtrip", "rdgrids fails / wrong shape", str(g)[:200], "(%d, 8) array" % n)
+    def at(v, i):  # scalar, length-1 vector (a repeated scalar) or length-N vector
+        return (v[i] if len(v) > 1 else v[0]) if isinstance(v, list) else v
+
     for i in range(n):
-        want = [ids[i], cp[i] if isinstance(cp, list) else cp] + list(xyz[i]) + [cd[i] if isinstance(cd, list) else cd,
-                                                                                  ps or 0, seid or 0]
+        want = [ids[i], at(cp, i)] + list(xyz[i] if len(xyz) > 1 or n == 1 else xyz[0]) + [at(cd, i), at(ps, i) or 0, at(seid, i) or 0]
         got = g[i].tolist()
         for k in (0, 1, 5, 6, 7):
             if got[k] != want[k]:
@@ -1377,6 +1395,8 @@ def _gen_oracle_cases(ctx):
         vals = np.array(vals)
         if d["kind"] in ("sym", "sparse-sym", "f9-unequal"):
             vals = np.tril(vals) + np.tril(vals, -1).T
+        elif d["kind"] == "hermitian":
+            vals = np.tril(vals, -1) + np.tril(vals, -1).conj().T + np.diag(np.diag(vals).real)
         elif d["kind"] == "square" and vals.shape[0] > 1 and d["rowids"] == d["colids"]:
             # asymmetry well above the np.allclose tolerances of the writer's symmetry test
             big = max(1.0, float(np.abs(vals).max()))
@@ -1398,6 +1418,24 @@ def _gen_oracle_cases(ctx):
             "form": form,
             "ps": rng.choice(["", "", 123456, 123]),
             "seid": rng.choice(["", "", 5]),
+        }))
+    # documented argument packagings of wtgrids: `xyz` with 1 row (shared by all N grids; also the signature default),
+    # cp / cd / ps / seid scalar, length-1 vector or length-N vector -- in every position relative to the N-vectors
+    for _ in range(ctx.pick(80, 800)):
+        n = rng.randint(2, 6)
+
+        def pk(lo, hi):
+            u = rng.random()
+            return rng.randint(lo, hi) if u < 0.35 else [rng.randint(lo, hi)] if u < 0.7 else [rng.randint(lo, hi) for _ in range(n)]
+
+        one_row = rng.random() < 0.6
+        cases.append(("grids", {
+            "ids": sorted(rng.sample(range(1, 99999999), n)), "cp": pk(0, 9999),
+            "xyz": [[rng.uniform(-900, 900) for _ in range(3)] for _ in range(1 if one_row else n)],
+            "cd": pk(0, 9999), "form": rng.choice(["{:16.8f}", "{:8.3f}"]),
+            "ps": rng.choice(["", 123456, [123], [rng.choice([1, 12, 123456]) for _ in range(n)]]),
+            "seid": rng.choice(["", 5, [7], [rng.randint(1, 9) for _ in range(n)]]),
+            "packaging": True,
         }))
     for k in range(ctx.pick(60, 600)):
         cases.append(("uset", {"seed": rng.randint(0, 2 ** 31), "ncs": rng.randint(0 if k % 2 else 1, 4), "ngrids": rng.randint(1, 6),
